@@ -48,7 +48,7 @@ Definition mems (c : conf) : list R := map p_mem (c_procs c).
 Lemma atomic_op_length (a : astate) po : length (a_mems (atomic_op a po)) = length (a_mems a).
 Proof.
   unfold atomic_op. destruct (nth_error (a_mems a) (fst po)); auto.
-  destruct (snd po); simpl; now rewrite upd_length.
+  destruct (snd po); simpl; auto; now rewrite upd_length.
 Qed.
 
 Lemma atomic_run_length (a : astate) l : length (a_mems (atomic_run a l)) = length (a_mems a).
@@ -76,6 +76,9 @@ Definition inflight (a : astate) (p : nat) (o : op R) (ph : phase R) (m mp : R) 
   | UWritten f, OUpd g => f = g /\ c_file c = FRec (f m') /\ mp = f m' /\ c_reads c = rd
   | LLocked, OLoad | LOpened, OLoad => c_file c = a_file a /\ mp = m /\ c_reads c = a_reads a
   | LReadDone, OLoad => c_file c = a_file a /\ mp = m' /\ c_reads c = rd
+  | SvLocked, OSave => c_file c = a_file a /\ mp = m /\ c_reads c = a_reads a
+  | SvTrunced, OSave => c_file c = FEmpty /\ mp = m /\ c_reads c = a_reads a
+  | SvWritten, OSave => c_file c = FRec m /\ mp = m /\ c_reads c = a_reads a
   | _, _ => False
   end.
 
@@ -227,6 +230,29 @@ Proof.
       - rewrite nth_error_upd_neq in Hq by congruence. eauto. }
     split; [assumption|]. split; [|assumption].
     unfold mems in *; simpl. rewrite map_upd; simpl. rewrite Hmems, upd_upd, Hmp. reflexivity.
+  - (* SvLocked: OpenTrunc *)
+    destruct (busy_holds _ _ _ _ HI Hp) as (Hl & ord' & o & m & Ho & Hidle & Hm & Hmems & Hfl); [congruence|].
+    destruct HI as (Hlen & Hord & _). rewrite Hph in Hfl. rewrite Hl.
+    destruct o; simpl in Hfl; try contradiction. destruct Hfl as (Hf & Hmp & Hr).
+    eapply keep_lock; eauto. simpl. auto.
+  - (* SvTrunced: Write *)
+    destruct (busy_holds _ _ _ _ HI Hp) as (Hl & ord' & o & m & Ho & Hidle & Hm & Hmems & Hfl); [congruence|].
+    destruct HI as (Hlen & Hord & _). rewrite Hph in Hfl. rewrite Hl.
+    destruct o; simpl in Hfl; try contradiction. destruct Hfl as (Hf & Hmp & Hr).
+    eapply keep_lock; eauto. simpl. rewrite Hmp at 1. auto.
+  - (* SvWritten: Unlock *)
+    destruct (busy_holds _ _ _ _ HI Hp) as (Hl & ord' & o & m & Ho & Hidle & Hm & Hmems & Hfl); [congruence|].
+    destruct HI as (Hlen & Hord & _). rewrite Hph in Hfl.
+    destruct o; simpl in Hfl; try contradiction. destruct Hfl as (Hf & Hmp & Hr).
+    unfold Inv; simpl. split; [now rewrite upd_length|]. split; [assumption|].
+    rewrite Ho, atomic_run_snoc. unfold atomic_op; simpl. rewrite Hm. simpl.
+    split.
+    { intros q prq Hq. destruct (Nat.eq_dec q p) as [->|Hne].
+      - rewrite nth_error_upd_eq in Hq by assumption. now inversion Hq.
+      - rewrite nth_error_upd_neq in Hq by congruence. eauto. }
+    split; [assumption|]. split; [|assumption].
+    unfold mems in *; simpl. rewrite map_upd; simpl. rewrite Hmems, upd_upd, Hmp. now apply upd_same.
+  - (* SvPre: not a phase of this protocol *) exact HI.
 Qed.
 
 Lemma run_inv a0 sched (c : conf) : Inv a0 c -> Inv a0 (run true sched c).
@@ -259,17 +285,42 @@ Qed.
 (* the file after the operations of [order], when it held a record before *)
 Lemma atomic_file_fold order : forall (a : astate) r,
   Forall (fun po => (fst po < length (a_mems a))%nat) order ->
+  no_saves order = true ->
   a_file a = FRec r ->
   a_file (atomic_run a order) = FRec (apply_all (upd_fns order) r).
 Proof.
-  unfold atomic_run, apply_all.
-  induction order as [|[p o] l IH]; intros a r Hr Hf; simpl; auto.
+  unfold atomic_run, apply_all, no_saves.
+  induction order as [|[p o] l IH]; intros a r Hr Hs Hf; simpl; auto.
+  inversion Hr as [|? ? Hp Hr']; subst. simpl in Hp, Hs. apply andb_true_iff in Hs as (Hs1 & Hs2).
+  destruct (nth_error (a_mems a) p) as [m|] eqn:Hm; [|apply nth_error_None in Hm; lia].
+  unfold atomic_op at 2; simpl. rewrite Hm, Hf; simpl.
+  destruct o; simpl in *; try discriminate.
+  - apply IH; simpl; auto. now rewrite upd_length.
+  - apply IH; simpl; auto. now rewrite upd_length.
+Qed.
+
+(* with Saves in the order too: once a record is stored, a whole record is stored after every
+   operation *)
+Lemma atomic_file_whole order : forall (a : astate) r,
+  Forall (fun po => (fst po < length (a_mems a))%nat) order ->
+  a_file a = FRec r ->
+  exists r', a_file (atomic_run a order) = FRec r'.
+Proof.
+  unfold atomic_run.
+  induction order as [|[p o] l IH]; intros a r Hr Hf; simpl; eauto.
   inversion Hr as [|? ? Hp Hr']; subst. simpl in Hp.
   destruct (nth_error (a_mems a) p) as [m|] eqn:Hm; [|apply nth_error_None in Hm; lia].
   unfold atomic_op at 2; simpl. rewrite Hm, Hf; simpl.
   destruct o; simpl.
-  - apply IH; simpl; auto. now rewrite upd_length.
-  - apply IH; simpl; auto. now rewrite upd_length.
+  - eapply IH; simpl; eauto. now rewrite upd_length.
+  - eapply IH; simpl; eauto. now rewrite upd_length.
+  - eapply IH; simpl; eauto.
+Qed.
+
+Lemma no_saves_firstn n (order : list (nat * op R)) : no_saves order = true -> no_saves (firstn n order) = true.
+Proof.
+  unfold no_saves. revert n; induction order as [|po l IH]; intros [|n] H; simpl in *; auto.
+  apply andb_true_iff in H as (H1 & H2). rewrite H1. simpl. auto.
 Qed.
 
 (* ... and when there was no record yet: the first update starts from the in-memory record of
@@ -290,11 +341,11 @@ Qed.
 
 Lemma atomic_file_fold_empty loads p f rest (a : astate) m :
   Forall (fun po => snd po = OLoad) loads ->
-  Forall (fun po => (fst po < length (a_mems a))%nat) rest ->
+  Forall (fun po => (fst po < length (a_mems a))%nat) rest -> no_saves rest = true ->
   a_file a = FEmpty -> nth_error (a_mems a) p = Some m ->
   a_file (atomic_run a (loads ++ (p, OUpd f) :: rest)) = FRec (apply_all (upd_fns rest) (f m)).
 Proof.
-  intros Hl Hr Hf Hm. unfold atomic_run. rewrite fold_left_app. simpl.
+  intros Hl Hr Hns Hf Hm. unfold atomic_run. rewrite fold_left_app. simpl.
   destruct (atomic_loads_on_empty loads a Hl Hf) as (H1 & H2). unfold atomic_run in H1, H2.
   unfold atomic_op at 2; simpl. rewrite H2, Hm, H1; simpl.
   apply (atomic_file_fold rest); simpl; auto. now rewrite upd_length.
@@ -302,10 +353,10 @@ Qed.
 
 Theorem updates_linearizable (r0 : R) (progs : list (list (op R) * R)) sched :
   let c := run true sched (init (FRec r0) progs) in
-  c_lock c = None ->
+  c_lock c = None -> no_saves (c_order c) = true ->
   c_file c = FRec (apply_all (upd_fns (c_order c)) r0).
 Proof.
-  intros c Hl. destruct (linearizable (FRec r0) progs sched Hl) as (H & _). fold c in H. rewrite H.
+  intros c Hl Hns. destruct (linearizable (FRec r0) progs sched Hl) as (H & _). fold c in H. rewrite H.
   apply atomic_file_fold; auto. unfold a_init; simpl. rewrite map_length. apply order_in_range.
 Qed.
 
@@ -334,7 +385,7 @@ Lemma step_book locking progs (c : conf) p : Book progs c -> Book progs (step lo
 Proof.
   intro HB. unfold step.
   destruct (nth_error (c_procs c) p) as [pr|] eqn:Hp; [|assumption].
-  destruct (p_phase pr) eqn:Hph; try (now apply book_upd).
+  destruct (p_phase pr) eqn:Hph; try (now apply book_upd); try assumption.
   destruct (p_ops pr) as [|o rest] eqn:Hops; [assumption|].
   destruct (locking && is_some (c_lock c)); [assumption|].
   destruct HB as (Hlen & HB). split; simpl; [now rewrite upd_length|].
@@ -393,7 +444,7 @@ Proof.
     { intros ->. exists (length l). split; [lia|]. simpl.
       rewrite firstn_app, firstn_all, Nat.sub_diag. simpl. now rewrite app_nil_r. }
     unfold atomic_op in Hin. destruct (nth_error _ (fst po)); [|auto].
-    destruct (snd po); simpl in Hin; apply in_app_or in Hin as [Hi|[Hi|[]]]; auto.
+    destruct (snd po); simpl in Hin; auto; apply in_app_or in Hin as [Hi|[Hi|[]]]; auto.
 Qed.
 
 Theorem reads_are_prefix_states (file0 : fcontent R) (progs : list (list (op R) * R)) sched :
@@ -428,13 +479,31 @@ Qed.
 Theorem loads_see_whole_records (r0 : R) (progs : list (list (op R) * R)) sched :
   let c := run true sched (init (FRec r0) progs) in
   forall pv, In pv (c_reads c) ->
+  exists n r, (n <= length (c_order c))%nat /\ snd pv = FRec r /\
+              a_file (atomic_run (a_init (FRec r0) progs) (firstn n (c_order c))) = FRec r.
+Proof.
+  intros c pv Hin.
+  destruct (reads_are_prefix_states (FRec r0) progs sched pv Hin) as (n & Hn & E). fold c in E.
+  pose proof (order_in_range (FRec r0) progs sched) as Hr. fold c in Hr.
+  rewrite <- (firstn_skipn n (c_order c)) in Hr. apply Forall_app in Hr as (Hr & _).
+  destruct (atomic_file_whole (firstn n (c_order c)) (a_init (FRec r0) progs) r0) as (r & Er); auto.
+  { unfold a_init; simpl. now rewrite map_length. }
+  exists n, r. rewrite E. auto.
+Qed.
+
+(* without Saves that record is the fold of the update functions of the prefix *)
+Theorem loads_see_fold_of_prefix (r0 : R) (progs : list (list (op R) * R)) sched :
+  let c := run true sched (init (FRec r0) progs) in
+  no_saves (c_order c) = true ->
+  forall pv, In pv (c_reads c) ->
   exists n, (n <= length (c_order c))%nat /\
             snd pv = FRec (apply_all (upd_fns (firstn n (c_order c))) r0).
 Proof.
-  intros c pv Hin.
+  intros c Hns pv Hin.
   destruct (reads_are_prefix_states (FRec r0) progs sched pv Hin) as (n & Hn & E).
   exists n. split; auto. fold c in E. rewrite E.
-  apply atomic_file_fold; auto. unfold a_init; simpl. rewrite map_length.
+  apply atomic_file_fold; auto; [|now apply no_saves_firstn].
+  unfold a_init; simpl. rewrite map_length.
   pose proof (order_in_range (FRec r0) progs sched) as Hr. fold c in Hr.
   rewrite <- (firstn_skipn n (c_order c)) in Hr. now apply Forall_app in Hr.
 Qed.
@@ -471,6 +540,25 @@ Definition torn_sched : list nat := [0; 0; 0; 0; 0; 1; 1; 1]%nat.
 Theorem lockless_torn_read :
   let c := run false torn_sched (init (FRec (0, 0)) writer_and_reader) in
   In (1%nat, FEmpty) (c_reads c).
+Proof. vm_compute. auto. Qed.
+
+(* Save that truncates BEFORE taking the lock (seeded mutation): a reader that holds the lock
+   finds the file empty although a record was stored all the time *)
+Definition saver_and_reader : list (list (op (N * N)) * (N * N)) :=
+  [([OSave], (5, 5)); ([OLoad], (7, 7))].
+(* the reader locks and opens, the saver truncates, the reader reads *)
+Definition early_trunc_sched : list nat := [1; 1; 0; 1; 1; 0; 0; 0]%nat.
+
+Theorem save_truncating_before_lock_refuted :
+  let c := run_early early_trunc_sched (init (FRec (0, 0)) saver_and_reader) in
+  In (1%nat, FEmpty) (c_reads c) /\ all_done c = true /\ c_file c = FRec (5, 5).
+Proof. vm_compute. auto. Qed.
+
+(* the code as written, on the same schedule (the saver waits for the lock): the reader sees the
+   stored record *)
+Example save_under_lock_same_schedule :
+  let c := run true (early_trunc_sched ++ [0; 0]%nat) (init (FRec (0, 0)) saver_and_reader) in
+  c_reads c = [(1%nat, FRec (0, 0))] /\ all_done c = true /\ c_file c = FRec (5, 5).
 Proof. vm_compute. auto. Qed.
 
 (* ---------- the counters of the stress harness ---------- *)
@@ -528,6 +616,7 @@ Fixpoint writers (order : list (nat * op crec)) : list nat :=
   | [] => []
   | (p, OUpd _) :: r => p :: writers r
   | (_, OLoad) :: r => writers r
+  | (_, OSave) :: r => writers r
   end.
 
 Definition own_op (po : nat * op crec) : Prop := snd po = OLoad \/ snd po = OUpd (incr (fst po)).
@@ -540,8 +629,17 @@ Proof.
   - f_equal. auto.
 Qed.
 
-Definition is_upd (o : op crec) : bool := match o with OUpd _ => true | OLoad => false end.
-Definition is_incr (k : kop) : bool := match k with KIncr => true | KLoad => false end.
+Definition is_upd (o : op crec) : bool := match o with OUpd _ => true | _ => false end.
+Definition is_incr (k : kop) : bool := match k with KIncr => true | _ => false end.
+Definition is_ksave (k : kop) : bool := match k with KSave => true | _ => false end.
+Definition no_ksave (progs : list (list kop)) : bool := forallb (forallb (fun k => negb (is_ksave k))) progs.
+
+Lemma own_no_saves order : Forall own_op order -> no_saves order = true.
+Proof.
+  unfold no_saves. induction order as [|[p o] l IH]; intro H; simpl; auto.
+  inversion H as [|? ? Ho Hl]; subst. rewrite IH by assumption.
+  destruct Ho as [Ho|Ho]; simpl in Ho; subst o; reflexivity.
+Qed.
 Definition count_incr (ks : list kop) : nat := length (filter is_incr ks).
 
 Lemma count_writers order w :
@@ -553,6 +651,7 @@ Proof.
     + rewrite Nat.eqb_refl. simpl. now rewrite IH.
     + destruct (Nat.eqb_neq p w) as [_ E]. now rewrite (E Hne).
   - destruct (Nat.eqb p w); simpl; auto.
+  - destruct (Nat.eqb p w); simpl; auto.
 Qed.
 
 Lemma writers_in order w : In w (writers order) -> exists o, In (w, o) order.
@@ -560,6 +659,7 @@ Proof.
   induction order as [|[p o] l IH]; simpl; [contradiction|].
   destruct o; simpl.
   - intros [->|H]; eauto. destruct (IH H) as (o & Ho). eauto.
+  - intro H. destruct (IH H) as (o & Ho). eauto.
   - intro H. destruct (IH H) as (o & Ho). eauto.
 Qed.
 
@@ -595,12 +695,12 @@ Qed.
 Theorem counters_exact (progs : list (list kop)) sched :
   let nw := length progs in
   let c := run true sched (init (FRec (crec0 nw)) (kprogs nw progs)) in
-  all_done c = true -> c_lock c = None ->
+  no_ksave progs = true -> all_done c = true -> c_lock c = None ->
   exists r, c_file c = FRec r /\
             snd r = map (fun ks => N.of_nat (count_incr ks)) progs /\
             fst r = nsum (snd r).
 Proof.
-  intros nw c Hdone Hl.
+  intros nw c Hnk Hdone Hl.
   pose proof (updates_linearizable _ (crec0 nw) (kprogs nw progs) sched Hl) as Hfile. fold c in Hfile.
   pose proof (order_in_range _ (FRec (crec0 nw)) (kprogs nw progs) sched) as Hrange. fold c in Hrange.
   rewrite kprogs_length in Hrange. fold nw in Hrange.
@@ -611,8 +711,12 @@ Proof.
     destruct (nth_error progs p) as [ks|] eqn:Hks; [|apply nth_error_None in Hks; lia].
     specialize (Hops p (map (kop_op p) ks, crec0 nw)).
     unfold kprogs in Hops. rewrite kprogs_from_nth, Hks in Hops. specialize (Hops eq_refl). simpl in Hops.
-    apply in_ops_of in Hin. rewrite Hops in Hin. apply in_map_iff in Hin as (k & <- & _).
-    unfold own_op; simpl. destruct k; auto. }
+    apply in_ops_of in Hin. rewrite Hops in Hin. apply in_map_iff in Hin as (k & <- & Hk).
+    unfold own_op; simpl. destruct k; auto.
+    exfalso. unfold no_ksave in Hnk. rewrite forallb_forall in Hnk.
+    specialize (Hnk ks (nth_error_In _ _ Hks)). rewrite forallb_forall in Hnk.
+    specialize (Hnk KSave Hk). discriminate. }
+  specialize (Hfile (own_no_saves _ Hown)).
   rewrite (upd_fns_writers _ Hown) in Hfile.
   assert (Hw : Forall (fun w => (w < nw)%nat) (writers (c_order c))).
   { apply Forall_forall. intros w Hin. apply writers_in in Hin as (o & Ho).
